@@ -848,6 +848,12 @@ func fillPartitionMapV2(ns string,
 		if pid < len(oldPartitionNodes) {
 			oldlist = oldPartitionNodes[pid]
 		}
+		if len(oldlist) > replica {
+			// only the first replica old nodes can be reused below. The extra old nodes (isr is larger
+			// than replica while migrating) must stay as candidates, otherwise we may have no candidate
+			// left to replace a dead old node.
+			oldlist = oldlist[:replica]
+		}
 		nlist := make([]string, replica)
 		partitionNodes[pid] = nlist
 		exclude := make([]string, 0)
